@@ -62,7 +62,7 @@ def detCompileSources : List DepSrc := [.bindings, .cells, .objectsIfCanSee, .eg
 /-- generator states saved before / restored after `self.checker.checkRequirements(sample)`
     in `Scenario._generateInner` -/
 def detBracket : Bracket :=
-  { savePy := true, saveNp := false, restorePy := true, restoreNp := false }
+  { savePy := true, saveNp := true, restorePy := true, restoreNp := true }
 
 /-- soft-requirement activation compares with `<=` -/
 def detActivationLe : Bool := true
